@@ -10,6 +10,7 @@ CONSTANTS
   Trials = 16
   Fix = {}
   Mut = {}
+  Loop = {}
 INVARIANT Report
 POSTCONDITION Accepted
 CHECK_DEADLOCK FALSE
